@@ -111,11 +111,13 @@ CHECK_DEADLOCK FALSE
 def scn_from_gen(sid, rec):
     plan = [(p["r"], p["when"], p["at"]) for p in rec["plan"]]
     steps = [{"a": h["a"], "r": h["r"]} if h["r"] else {"a": h["a"]} for h in rec["hist"]]
+    if rec.get("second") and rec["exec"] == "ok":
+        steps.append({"a": "Second"})   # the same executor is given a second task afterwards
     bad = sorted(tuple(b) for b in rec["bad"]["$set"])
     cls = "%s/%s/%s%s" % (rec["kind"], rec["beh"], "+".join("%s@%s%s" % (r, w, "" if a == "calm" else ":" + a)
                                                            for (r, w, a) in plan) or "-",
                           ("/deep" if rec["deep"] else "") + ("/hold" if rec["hold"] and rec["kind"] != "ctl" else "")
-                          + ("/user" if rec.get("usr") else "") + ("/down" if rec.get("down") else ""))
+                          + ("/user" if rec.get("usr") else "") + ("/down" if rec.get("down") else "") + ("/second" if rec.get("second") else ""))
     return {"id": sid, "kind": rec["kind"], "beh": rec["beh"], "hold": bool(rec["hold"]), "user": bool(rec.get("usr")), "down": bool(rec.get("down")),
             "steps": steps, "cls": cls,
             "plan": plan, "predicted": [list(b) for b in bad], "origin": "generated"}
